@@ -1536,12 +1536,9 @@ impl Machine {
                         );
                     } else {
                         let max_idx = len.saturating_sub(1);
-                        let index_int = if !index_val.is_finite() {
-                            0
-                        } else {
-                            let raw_idx = index_val as i64;
-                            raw_idx.clamp(0, max_idx as i64) as usize
-                        };
+                        // `as i64` saturates (+inf -> i64::MAX, -inf -> i64::MIN, NaN -> 0), like the
+                        // `i64.trunc_sat_f64_s` the WASM backend emits: +inf selects the last element.
+                        let index_int = (index_val as i64).clamp(0, max_idx as i64) as usize;
                         let start = index_int * elem_word_size;
                         let end = start + elem_word_size;
                         let buffer = &adata.data[start..end];
@@ -1563,12 +1560,9 @@ impl Machine {
                     // program-counter update below and execute this instruction again for ever.)
                     if len != 0 {
                         let max_idx = len.saturating_sub(1);
-                        let index_int = if !index_val.is_finite() {
-                            0
-                        } else {
-                            let raw_idx = index_val as i64;
-                            raw_idx.clamp(0, max_idx as i64) as usize
-                        };
+                        // `as i64` saturates (+inf -> i64::MAX, -inf -> i64::MIN, NaN -> 0), like the
+                        // `i64.trunc_sat_f64_s` the WASM backend emits: +inf selects the last element.
+                        let index_int = (index_val as i64).clamp(0, max_idx as i64) as usize;
                         let (_range2, buf_src2) =
                             self.get_stack_range(val as _, elem_word_size as _);
                         let src_words = buf_src2.to_vec();
